@@ -35,6 +35,7 @@ func c07(c *Ctx) {
 	c07R7(c)
 	c07R8(c)
 	c07R9(c)
+	c07R10(c)
 }
 
 // R6: the pool sync always looks at the surplus. The trimming half of
@@ -913,4 +914,54 @@ func c07R9(c *Ctx) {
 		c.Check(w == nil, "C07.R9", fn.Key()+": a returned interface is kept or handed back before the next creation", p.Pos(cs.Call), fn.Key(), "must-pass: record / DeleteNetworkInterface / return between two creations", "path: "+p.describePath(w))
 	}
 	c.Floor("C07.R9", "consumers of CreateNetworkInterface", 2, n)
+}
+
+// R10: what is attached is adopted. At start-up the production factory intersects the interfaces the
+// instance metadata lists with the cloud's description of them; every interface known to both is
+// returned to the pool builder, whatever else the description says about it (status, tags already
+// filtered by the query). An attached interface that is left out is never tracked again: the list is
+// read once per process.
+func c07R10(c *Ctx) {
+	p := c.P
+	c.Rule("C07.R10", "Aliyun.GetAttachedNetworkInterface: every described interface whose id the instance metadata lists is returned (the append of the intersect loop is reached whenever the id lookup succeeds)")
+	fn := p.Func(factoryAliyunPkg, "Aliyun.GetAttachedNetworkInterface")
+	if fn == nil {
+		c.Unres("C07.R10", "Aliyun.GetAttachedNetworkInterface", "not found")
+		return
+	}
+	info := fn.Info()
+	n := 0
+	ast.Inspect(fn.Decl.Body, func(k ast.Node) bool {
+		rs, ok := k.(*ast.RangeStmt)
+		if !ok {
+			return true
+		}
+		// a loop whose body looks an id up in a map of *daemon.ENI and appends the entry found
+		var okFlag types.Object
+		var app ast.Node
+		ast.Inspect(rs.Body, func(j ast.Node) bool {
+			as, isAs := j.(*ast.AssignStmt)
+			if !isAs || len(as.Rhs) != 1 {
+				return true
+			}
+			if ix, isIx := ast.Unparen(as.Rhs[0]).(*ast.IndexExpr); isIx && len(as.Lhs) == 2 {
+				if m, isMap := info.TypeOf(ix.X).Underlying().(*types.Map); isMap && strings.HasSuffix(m.Elem().String(), "daemon.ENI") {
+					okFlag = identObj(info, as.Lhs[1])
+				}
+			}
+			if _, isApp := isBuiltinCall(info, as.Rhs[0], "append"); isApp {
+				app = as
+			}
+			return true
+		})
+		if okFlag == nil || app == nil {
+			return true
+		}
+		n++
+		c.RequireReachedF("C07.R10", "GetAttachedNetworkInterface: an interface known to metadata and to the cloud is returned", fn, rs.Body, app, "the id is one the metadata lists", func(e *FactEngine) (*Formula, error) {
+			return e.Cond(identFor(info, okFlag)), nil
+		})
+		return false
+	})
+	c.Floor("C07.R10", "intersect loops", 1, n)
 }
